@@ -1636,8 +1636,8 @@ TESTED_NOT_PROVED = [
     "CalcMolFormula string equality <=> equal element counts and charge (RDKit oracle; the graph-level formula is proved, the verdicts are compared on every run)",
     "rsmi_to_graph / graph_to_smi (RDKit front and back end of the canonicaliser): 'same unmapped reactants and products' of the returned STRING "
     "is checked by the oracle on every run (graph level: proved, the canonical graphs are relabelled copies)",
-    "fixed point of the canonicaliser on reactant graphs WITH non-trivial automorphisms (nauty) / with tied WL colours (wl): the text demands it "
-    "unconditionally, the theorems cover rigid graphs / distinct colours; oracle clause canon-fixed-point on every canonicaliser case",
+    "fixed point of the canonicaliser for back-end nauty on reactant graphs WITH non-trivial automorphisms: the text demands it unconditionally, "
+    "the theorem covers rigid graphs (wl: proved unconditionally); oracle clause canon-fixed-point on every canonicaliser case",
     "WL colours are an input of the model (any ranking); nauty model evaluated only for reactant graphs of <= %d atoms, ITS matcher for <= %d atoms "
     "(larger cases: oracle + reaction-centre matcher only)" % (NAUTY_MAX_ATOMS, ITS_MAX_ATOMS),
     "validate_smiles: success_rate and the float accuracy (derived by the harness from the modelled exact count); RDKit's tautomer enumeration "
@@ -1657,8 +1657,9 @@ LEVEL_TEXT = ("Machine-checked proof (Coq) over executable models of CanonRSMI.c
               "(C09_numbering_independent_wl_refuted, known finding wl-tied-colours-distinguishable); for EVERY parsed presentation of the reaction "
               "(any renaming that keeps the relative order of partner-less product atoms, any atom order, bond order, bond orientation) at graph "
               "level, and for the canonical_rsmi STRING relative to two explicit RDKit contracts (writer is a function of the graph; the canonical "
-              "string is read back as the written graphs). The fixed-point clause, which the text states without condition, is proved for those "
-              "two cases only; on symmetric reactants / tied colours it is checked by the oracle on every run. The validator's matcher answers true exactly when "
+              "string is read back as the written graphs). The fixed-point clause, which the text states without condition, is proved for wl without "
+              "any condition on the colours (tied colours included; every presentation, string level) and for nauty on rigid reactant graphs; for nauty "
+              "on reactant graphs with automorphisms it is checked by the oracle on every run. The validator's matcher answers true exactly when "
               "the two ITS graphs / reaction centres are isomorphic on typesGH and bond-order pairs (both values of ignore_aromaticity), hence "
               "accepts every renumbering and rejects every non-equivalent swap; check_equivariant_graph returns exactly the index pairs of "
               "isomorphic graphs. Balance: true exactly when all element counts (with hydrogens) and the total charge agree; dicts_balance_check "
